@@ -675,6 +675,10 @@ func (h *hist) dump() {
 
 // compact runs the production picker + compaction on `level`; returns false if nothing was picked
 func (h *hist) compact(level int, l0l0 bool, drop [][]byte) (bool, error) {
+	// the discard timestamp a compaction reads is the read watermark, which a goroutine advances
+	// asynchronously: let it catch up with every transaction that has ended, so that all
+	// sub-compactions read the same value
+	h.db.VerifSettleWatermarks()
 	h.mu.Lock()
 	h.cgot = false
 	h.cinfo = nil
